@@ -6,6 +6,7 @@
 // and the oracle data.
 #include "vsched.h"
 #include <atomic>
+#include <pthread.h>
 #include <set>
 #include <string>
 #include <vector>
@@ -27,6 +28,8 @@ long ws_end = 0, ws_incr = 1, ws_chunk = 1;
 std::atomic<int> ws_arrived{0};
 std::atomic<long> ws_barrier_gen{0};
 thread_local long tl_loops = 0;          // loops this thread has entered (all threads enter the same loops)
+thread_local long tl_singles = 0;
+std::atomic<long> single_claim{0};
 
 souffle::SouffleProgram* prog = nullptr;
 int vs_current_scenario = 0;
@@ -84,6 +87,18 @@ bool GOMP_loop_dynamic_next(long* e, long* f) { return GOMP_loop_nonmonotonic_dy
 void GOMP_loop_end() { DBG("T%d loop_end\n", vs::self()); team_barrier(); DBG("T%d loop_end passed\n", vs::self()); }
 void GOMP_loop_end_nowait() {}
 void GOMP_barrier() { team_barrier(); }
+// reductions that the compiler does not combine with atomic instructions are combined under the runtime's global lock
+static pthread_mutex_t g_atomic_mx = PTHREAD_MUTEX_INITIALIZER;
+void GOMP_atomic_start() { pthread_mutex_lock(&g_atomic_mx); }
+void GOMP_atomic_end() { pthread_mutex_unlock(&g_atomic_mx); }
+void GOMP_critical_start() { pthread_mutex_lock(&g_atomic_mx); }
+void GOMP_critical_end() { pthread_mutex_unlock(&g_atomic_mx); }
+// `single`: every thread meets the same sequence of single constructs; the first one to arrive at the k-th executes it
+bool GOMP_single_start() {
+    long me = ++tl_singles;
+    long expect = me - 1;
+    return single_claim.compare_exchange_strong(expect, me);
+}
 }
 
 extern "C" int vs_nscenarios() { return N_SCENARIOS; }
@@ -93,7 +108,7 @@ extern "C" int vs_setup(int s) {
     vs_current_scenario = s;
     omp_set_num_threads(g_nt);
     g_region.store(0); g_done.store(0); g_finished.store(0);
-    ws_next.store(0); ws_ready.store(0); ws_claim.store(0); ws_arrived.store(0); ws_barrier_gen.store(0);
+    ws_next.store(0); ws_ready.store(0); ws_claim.store(0); ws_arrived.store(0); ws_barrier_gen.store(0); single_claim.store(0);
     prog = souffle::ProgramFactory::newInstance(PROG_NAME);
     for (int i = 0; i < N_FACTS; i++) {
         if (FACTS[i].scenario != s) continue;
@@ -107,6 +122,7 @@ extern "C" int vs_setup(int s) {
 }
 extern "C" void vs_thread(int tid) {
     tl_loops = 0;
+    tl_singles = 0;
     if (tid == 0) {
         prog->run();
         g_finished.store(1);
@@ -135,7 +151,12 @@ extern "C" int vs_check(std::string& obs) {
         if (r) {
             for (auto& t : *r) {
                 std::vector<int> v;
-                for (std::size_t i = 0; i < r->getArity(); i++) { souffle::RamDomain x; t >> x; v.push_back((int)x); }
+                for (std::size_t i = 0; i < r->getArity(); i++) {
+                    char ty = r->getAttrType(i)[0];
+                    if (ty == 'f') { souffle::RamFloat x; t >> x; v.push_back((int)souffle::ramBitCast<souffle::RamDomain>(x)); }
+                    else if (ty == 'u') { souffle::RamUnsigned x; t >> x; v.push_back((int)x); }
+                    else { souffle::RamDomain x; t >> x; v.push_back((int)x); }
+                }
                 got.insert(v);
                 n++;
             }
